@@ -3,6 +3,7 @@ package main
 import (
 	"fmt"
 	"os"
+	"strings"
 )
 
 func main() {
@@ -13,6 +14,8 @@ func main() {
 	switch os.Args[1] {
 	case "check":
 		os.Exit(cmdCheck(os.Args[2:]))
+	case "modset":
+		os.Exit(cmdModset(os.Args[2:]))
 	default:
 		fmt.Fprintln(os.Stderr, "unknown command")
 		os.Exit(2)
@@ -26,4 +29,54 @@ func contains(xs []string, x string) bool {
 		}
 	}
 	return false
+}
+
+// cmdModset: debugging aid — which functions reachable from fn write a heap key.
+func cmdModset(args []string) int {
+	ld, err := Load("/repo", []string{"./..."})
+	if err != nil {
+		fmt.Fprintln(os.Stderr, err)
+		return 2
+	}
+	eng := newEngine(ld)
+	for _, f := range eng.allFuncs {
+		if f.String() != args[0] && f.Name() != args[0] {
+			continue
+		}
+		ms := eng.modset(f)
+		fmt.Println(f.String(), "all:", ms.all)
+		for k := range ms.keys {
+			if len(args) < 2 || strings.Contains(k, args[1]) {
+				fmt.Println("  ", k)
+			}
+		}
+		if len(args) >= 2 {
+			for _, b := range f.Blocks {
+				for _, in := range b.Instrs {
+					for _, callee := range eng.callees(in) {
+						m := eng.modset(callee)
+						for k := range m.keys {
+							if strings.Contains(k, args[1]) {
+								fmt.Printf("   via %s (at %s): %s\n", callee.String(), ld.Prog.Fset.Position(in.Pos()), k)
+							}
+						}
+					}
+				}
+			}
+			for _, g := range eng.allFuncs {
+				d := &modSet{keys: map[string]bool{}}
+				for _, b := range g.Blocks {
+					for _, in := range b.Instrs {
+						eng.directWrites(g, in, d)
+					}
+				}
+				for k := range d.keys {
+					if strings.Contains(k, args[1]) {
+						fmt.Println("   direct writer:", g.String(), k)
+					}
+				}
+			}
+		}
+	}
+	return 0
 }
